@@ -101,6 +101,16 @@ type solveOpts struct {
 
 // solveAll discharges obligations in parallel. Identical queries are solved once.
 func solveAll(prelude string, obls []*Obligation, opt solveOpts) {
+	for _, o := range obls {
+		if o.Prelude == nil {
+			p := prelude
+			o.Prelude = &p
+		}
+	}
+	solvePool(obls, opt)
+}
+
+func solvePool(obls []*Obligation, opt solveOpts) {
 	type job struct {
 		text string
 		obls []*Obligation
@@ -112,7 +122,7 @@ func solveAll(prelude string, obls []*Obligation, opt solveOpts) {
 			o.Result, o.Backend = "unsat", "trivial"
 			continue
 		}
-		t := queryText(prelude, o, false)
+		t := queryText(*o.Prelude, o, false)
 		h := sha256.Sum256([]byte(t))
 		if j, ok := byHash[h]; ok {
 			j.obls = append(j.obls, o)
